@@ -37,7 +37,7 @@ def apply_variant(v, root):
 def run_variant(v, tier):
     d = tempfile.mkdtemp(prefix="smself_")
     try:
-        shutil.copytree("/repo/src", os.path.join(d, "src"))
+        shutil.copytree(os.environ.get("SELFTEST_SRC", "/repo/src"), os.path.join(d, "src"))
         try:
             apply_variant(v, d)
         except RuntimeError as e:
